@@ -93,6 +93,10 @@ class Contract:
     def pre(self, c):
         return []
 
+    def ghost_axioms(self, c):
+        """definitional axioms of ghost functions (conservative extensions): ASSUMED in both modes, never obligations"""
+        return []
+
     def post(self, c):
         return []
 
